@@ -1,5 +1,176 @@
-(* C03 — placeholder while the proofs are being written (statements follow). *)
-From Coq Require Import NArith List.
-From ISAL Require Import Spec.AES Spec.XTS Gen.AesCfgGen.
-Example C03_kat_v1 : xts_enc v1_K1 v1_K2 v1_TW v1_P = v1_C.
+(* C03 — AES-XTS equals IEEE 1619 incl. ciphertext stealing; decryption inverts encryption;
+   the expanded-key entry points agree with the raw-key ones; fewer than 16 bytes: nothing.
+   This file contains only statements, each closed by an already-proved lemma.
+
+   Vocabulary (Proofs/AesFacts.v, Proofs/XtsFacts.v; C03_vocabulary below unfolds it):
+     bytes l        every element of l is < 256
+     wfb l          l is a 16-byte block:           length l = 16 /\ bytes l
+     wf_sched rks   every round key is a block:     Forall wfb rks
+     len_sched rks  every round key has 16 elements
+     valid_key k    length k is 16, 24 or 32  /\  bytes k
+     xshape cs      cs = chunks 16 p for some p with length p >= 16: full blocks, the last one
+                    possibly followed by a partial block of 1..15 bytes
+   xts_enc k1 k2 tweak p (Spec/XTS.v) is IEEE 1619 with k1 = data key, k2 = tweak key;
+   xts_enc_raw / xts_dec_raw / xts_enc_exp / xts_dec_exp (Model/Xts.v) model the library's entry
+   points (raw keys; schedules as found in memory). *)
+From Coq Require Import NArith List Arith Lia.
+From ISAL Require Import Base.Words Base.ListUtil Spec.AES Spec.XTS Model.KeyExp Model.Xts Gen.AesCfgGen
+  Proofs.AesFacts Proofs.XtsFacts Proofs.XtsCfgFacts Proofs.AesModesExamples.
+Import ListNotations.
+Local Open Scope N_scope.
+
+Example C03_vocabulary :
+  (forall l, wfb l <-> length l = 16%nat /\ Forall (fun b => b < 256) l) /\
+  (forall k, valid_key k <-> valid_key_len (length k) = true /\ Forall (fun b => b < 256) k) /\
+  (forall rks, wf_sched rks <-> Forall wfb rks).
+Proof. exact (conj (fun l => iff_refl _) (conj (fun k => iff_refl _) (fun rks => iff_refl _))). Qed.
+
+(* (a) InvCipher inverts Cipher, for every schedule of well-formed round keys of any length
+   (FIPS-197 5.1 / 5.3) — in particular for KeyExpansion of every valid key *)
+Theorem C03_inv_cipher_cipher : forall (rks : list (list N)) (blk : list N),
+  wf_sched rks -> wfb blk -> inv_cipher rks (cipher rks blk) = blk.
+Proof. exact c_inv_cipher_cipher. Qed.
+Print Assumptions C03_inv_cipher_cipher.
+
+Theorem C03_key_expansion_wf : forall k : list N,
+  valid_key_len (length k) = true ->
+  length (key_expansion k) = (length k / 4 + 7)%nat /\ len_sched (key_expansion k) /\
+  (bytes k -> wf_sched (key_expansion k)).
+Proof. exact key_expansion_facts. Qed.
+Print Assumptions C03_key_expansion_wf.
+
+Theorem C03_aes_dec_enc : forall k blk : list N,
+  valid_key_len (length k) = true -> bytes k -> wfb blk -> aes_dec k (aes_enc k blk) = blk.
+Proof. exact c_aes_dec_enc. Qed.
+Print Assumptions C03_aes_dec_enc.
+
+(* (b) FIPS-197 5.3.5: decrypting with the reversed, InvMixColumns-ed schedule (what aesdec
+   based code and the documented expanded-key layout use) equals InvCipher *)
+Theorem C03_eq_inv_cipher : forall (rks : list (list N)) (blk : list N),
+  len_sched rks -> length blk = 16%nat -> eq_inv_cipher (dec_schedule rks) blk = inv_cipher rks blk.
+Proof. exact c_eq_inv_cipher. Qed.
+Print Assumptions C03_eq_inv_cipher.
+
+(* (c) XTS decryption inverts XTS encryption for EVERY length >= 16, multiples of 16 or not *)
+Theorem C03_xts_dec_enc : forall k1 k2 tweak p : list N,
+  valid_key k1 -> valid_key k2 -> wfb tweak -> bytes p -> (16 <= length p)%nat ->
+  xts_dec k1 k2 tweak (xts_enc k1 k2 tweak p) = p.
+Proof. exact c_xts_dec_enc. Qed.
+Print Assumptions C03_xts_dec_enc.
+
+(* ... because decryption uses the tweaks of the last two blocks in swapped order *)
+Theorem C03_xts_steal_swap : forall (rks : list (list N)) (t b tl : list N), (length tl < 16)%nat ->
+  xts_dec_chunks rks t [b; tl] =
+  let pp := xts_blk_dec rks (xts_mul_alpha t) b in
+  xts_blk_dec rks t (tl ++ skipn (length tl) pp) ++ firstn (length tl) pp.
+Proof. exact c_xts_steal_swap. Qed.
+Print Assumptions C03_xts_steal_swap.
+
+(* (d) the output is as long as the input *)
+Theorem C03_xts_enc_length : forall k1 k2 tweak p : list N,
+  valid_key k1 -> valid_key k2 -> wfb tweak -> bytes p -> (16 <= length p)%nat ->
+  length (xts_enc k1 k2 tweak p) = length p.
+Proof. exact c_xts_enc_length. Qed.
+Print Assumptions C03_xts_enc_length.
+
+Theorem C03_xts_dec_length : forall k1 k2 tweak c : list N,
+  valid_key k1 -> valid_key k2 -> wfb tweak -> (16 <= length c)%nat ->
+  length (xts_dec k1 k2 tweak c) = length c.
+Proof. exact c_xts_dec_length. Qed.
+Print Assumptions C03_xts_dec_length.
+
+(* (e) the expanded-key entry points, given the schedules the key expansion writes
+   (encryption schedule of k2; encryption resp. decryption schedule of k1), compute exactly
+   what the raw-key entry points compute — for all inputs whatsoever *)
+Theorem C03_xts_enc_expanded_eq_raw : forall k2 k1 tweak p : list N,
+  xts_enc_exp (keyexp_enc k2) (keyexp_enc k1) tweak p = xts_enc_raw k2 k1 tweak p.
+Proof. exact c_xts_enc_expanded_eq_raw. Qed.
+Print Assumptions C03_xts_enc_expanded_eq_raw.
+
+Theorem C03_xts_dec_expanded_eq_raw : forall k2 k1 tweak c : list N, length tweak = 16%nat ->
+  xts_dec_exp (keyexp_enc k2) (keyexp_dec k1) tweak c = xts_dec_raw k2 k1 tweak c.
+Proof. exact c_xts_dec_expanded_eq_raw. Qed.
+Print Assumptions C03_xts_dec_expanded_eq_raw.
+
+(* (f) fewer than 16 bytes: no entry point produces any output *)
+Theorem C03_short_noop : forall k2 k1 ek2 ek1 dk1 tweak p : list N, (length p < 16)%nat ->
+  xts_enc_raw k2 k1 tweak p = [] /\ xts_dec_raw k2 k1 tweak p = [] /\
+  xts_enc_exp ek2 ek1 tweak p = [] /\ xts_dec_exp ek2 dk1 tweak p = [].
+Proof. exact c_xts_short_noop. Qed.
+Print Assumptions C03_short_noop.
+
+(* ... and 16 is the minimum the header documents (constants regenerated from include/aes_xts.h) *)
+Theorem C03_header_lengths : isal_aes_xts_min_len_src = 16 /\ isal_aes_xts_max_len_src = 2 ^ 24.
+Proof. exact c_cfg_xts_min_len. Qed.
+Print Assumptions C03_header_lengths.
+
+(* (g) a data unit may be evaluated in windows: full blocks first, then the rest with the tweak
+   advanced by one multiplication by alpha per block (used by the check for 2^24-byte units) *)
+Theorem C03_xts_enc_chunks_app : forall (rks : list (list N)) (t : list N) (cs1 cs2 : list (list N)),
+  len_sched rks -> Forall (fun b => length b = 16%nat) cs1 -> xshape cs2 ->
+  xts_enc_chunks rks t (cs1 ++ cs2) =
+  xts_enc_chunks rks t cs1 ++ xts_enc_chunks rks (xts_tweak_pow (length cs1) t) cs2.
+Proof. exact c_xts_enc_chunks_app. Qed.
+Print Assumptions C03_xts_enc_chunks_app.
+
+Theorem C03_xts_dec_chunks_app : forall (rks : list (list N)) (t : list N) (cs1 cs2 : list (list N)),
+  len_sched rks -> Forall (fun b => length b = 16%nat) cs1 -> xshape cs2 ->
+  xts_dec_chunks rks t (cs1 ++ cs2) =
+  xts_dec_chunks rks t cs1 ++ xts_dec_chunks rks (xts_tweak_pow (length cs1) t) cs2.
+Proof. exact c_xts_dec_chunks_app. Qed.
+Print Assumptions C03_xts_dec_chunks_app.
+
+Theorem C03_xts_tweak_pow_add : forall (a b : nat) (t : list N),
+  xts_tweak_pow (a + b) t = xts_tweak_pow b (xts_tweak_pow a t).
+Proof. exact c_xts_tweak_pow_add. Qed.
+Print Assumptions C03_xts_tweak_pow_add.
+
+Theorem C03_chunks_xshape : forall p : list N, (16 <= length p)%nat -> xshape (chunks 16 p).
+Proof. exact chunks_xshape. Qed.
+Print Assumptions C03_chunks_xshape.
+
+(* non-vacuity: concrete inputs meeting every hypothesis, with non-trivial results *)
+Example C03_nonvacuous_aes :
+  (valid_key (kat_c_key 16) /\ valid_key (kat_c_key 24) /\ valid_key (kat_c_key 32)) /\
+  (wf_sched (key_expansion (kat_c_key 16)) /\ wf_sched (key_expansion (kat_c_key 24)) /\ wf_sched (key_expansion (kat_c_key 32))) /\
+  wfb kat_c_plain /\
+  (cipher (key_expansion (kat_c_key 24)) kat_c_plain = kat_C2_cipher /\ kat_C2_cipher <> kat_c_plain) /\
+  inv_cipher (key_expansion (kat_c_key 24)) kat_C2_cipher = kat_c_plain /\
+  eq_inv_cipher (dec_schedule (key_expansion (kat_c_key 24))) kat_C2_cipher = kat_c_plain.
+Proof. exact c03_ex_aes. Qed.
+
+(* IEEE 1619 vector 15: 17 bytes, ciphertext stealing, through spec and expanded-key model *)
+Example C03_nonvacuous_xts_steal :
+  valid_key v15_K1 /\ valid_key v15_K2 /\ wfb v15_TW /\ bytes v15_P /\ length v15_P = 17%nat /\
+  xts_enc v15_K1 v15_K2 v15_TW v15_P = v15_C /\ firstn 17 v15_C <> v15_P /\
+  xts_dec v15_K1 v15_K2 v15_TW v15_C = v15_P /\
+  xts_enc_exp (keyexp_enc v15_K2) (keyexp_enc v15_K1) v15_TW v15_P = v15_C /\
+  xts_dec_exp (keyexp_enc v15_K2) (keyexp_dec v15_K1) v15_TW v15_C = v15_P.
+Proof. exact c03_ex_xts_steal. Qed.
+
+(* IEEE 1619 vector 10: XTS-AES-256, 512 bytes *)
+Example C03_nonvacuous_xts_256 :
+  valid_key v10_K1 /\ valid_key v10_K2 /\ wfb v10_TW /\ bytes v10_P /\ length v10_P = 512%nat /\
+  xts_enc v10_K1 v10_K2 v10_TW v10_P = v10_C /\ xts_dec v10_K1 v10_K2 v10_TW v10_C = v10_P.
+Proof. exact c03_ex_xts_256. Qed.
+
+Example C03_nonvacuous_window :
+  let p := firstn 51 v10_P in
+  let cs := chunks 16 p in
+  Forall (fun b => length b = 16%nat) (firstn 2 cs) /\ xshape (skipn 2 cs) /\
+  xts_enc_chunks (key_expansion v10_K1) (xts_tweak0 v10_K2 v10_TW) cs =
+  xts_enc_chunks (key_expansion v10_K1) (xts_tweak0 v10_K2 v10_TW) (firstn 2 cs) ++
+  xts_enc_chunks (key_expansion v10_K1) (xts_tweak_pow 2 (xts_tweak0 v10_K2 v10_TW)) (skipn 2 cs).
+Proof. exact c03_ex_window. Qed.
+
+(* known answers of the standard (proved in Spec/XTS.v by computation) *)
+Example C03_kat_ieee1619_v1 : xts_enc v1_K1 v1_K2 v1_TW v1_P = v1_C.
 Proof. exact xts_enc_v1. Qed.
+Example C03_kat_ieee1619_v4 : xts_enc v4_K1 v4_K2 v4_TW v4_P = v4_C.
+Proof. exact xts_enc_v4. Qed.
+Example C03_kat_ieee1619_v16 : xts_enc v16_K1 v16_K2 v16_TW v16_P = v16_C.
+Proof. exact xts_enc_v16. Qed.
+Example C03_kat_ieee1619_v17 : xts_dec v17_K1 v17_K2 v17_TW v17_C = v17_P.
+Proof. exact xts_dec_v17. Qed.
+Example C03_kat_ieee1619_v18 : xts_enc v18_K1 v18_K2 v18_TW v18_P = v18_C.
+Proof. exact xts_enc_v18. Qed.
